@@ -126,8 +126,8 @@ func VP_C02_mint() {
 	vpAssert(vpMintPrivate.AccessToken == at, "minted-access-token-claim-is-the-session-access-token")
 }
 
-//vp:property C02
-//vp:bounds the same correctly signed, unexpired gateway cookie presented twice on fresh tunnels; the identity provider's verdict on the embedded access token is arbitrary and independent at each presentation (valid, then revoked/unreachable, or the reverse)
+//vp:property C02 C12
+//vp:bounds the same correctly signed, unexpired gateway cookie presented twice on fresh tunnels with connection identifiers of their own (a reconnect); the identity provider's verdict on the embedded access token is arbitrary and independent at each presentation (valid, then revoked/unreachable, or the reverse)
 //vp:assume as VP_C02_verify
 //vp:reach second-accepted second-refused
 func VP_C02_twice() {
@@ -139,7 +139,7 @@ func VP_C02_twice() {
 	var oks [2]bool
 	for i := 0; i < 2; i++ {
 		id := identity.NewUser()
-		tun := &protocol.Tunnel{User: id}
+		tun := &protocol.Tunnel{User: id, RDGId: "conn-" + vpItoa(i+1)}
 		// the same token both times: keep the ghost description, reset only per-call logs
 		vpParseCalls, vpSigAlgs, vpTokAlgs, vpClaimsKeyLog = 0, nil, nil, nil
 		vpPresentation = i
@@ -153,6 +153,9 @@ func VP_C02_twice() {
 		vpAssert(vpIdpAsked[1], "idp-consulted-at-the-second-presentation")
 	} else {
 		vpReach("second-refused")
+		// an unmodified token, inside its lifetime, which the identity provider still honours, is accepted
+		// again — whatever happened at its first presentation
+		vpAssert(!(vpIdpAsked[1] && vpIdpCalls >= 1 && vpBool("idp-honours-token-"+vpItoa(vpIdpCalls))), "an-unmodified-unexpired-token-the-idp-honours-is-accepted-again")
 	}
 }
 
